@@ -606,3 +606,222 @@ Example C05_located_example :
   length xpre + length xmid2 = 15 /\
   (forall e, In e (decl_errors (firstn (3 - 1) (skipn 1 (pg_decls p')))) -> C05_inside 5 (length xpre + length xmid2) e).
 Proof. exact ErrInsideTop.ex_located. Qed.
+
+(* ------------------------------------------------------------------------------------------ *)
+(* ONE token (Proofs/SingleTokDamage.v): the property in its own terms, hypotheses on the tokens only.
+   Original document  pre ++ mid ++ post, damaged document  pre ++ mid' ++ post:
+     pre    the untouched tokens in front of the damage; token j of pre is the `proc`/`type` keyword of the damaged
+            declaration;
+     post = tq :: post'   the untouched tokens from the next SYNCHRONISING token on: tq is the `proc`/`type` keyword of
+            the next declaration, or the Eof token (the damaged declaration is the last one; [sync_full]);
+     rest   the untouched remainder of the damaged declaration behind the damaged position, so that
+              deletion     mid = t :: rest    mid' = rest
+              insertion    mid = rest         mid' = t' :: rest
+              replacement  mid = t :: rest    mid' = t' :: rest
+   Side conditions: the original ends with its only Eof token (every lexer output does, C05_lexer_output_ends_with_eof)
+   and an inserted token is not Eof; the token directly in front of tq is not a comment in either version
+   [C05_last_not_comment (pre ++ mid)] - a comment there is the doc comment of the declaration tq begins (a trailing
+   comment in front of Eof), so the boundary lies in front of it.  For rest <> [] that is a condition on the last token
+   of rest alone (C05_last_not_comment_app), for rest = [] on t, t' resp. the last token of pre (the `_last` theorems).
+   NOT needed: that t, t' are not declaration keywords (a damage that adds or removes a `proc`/`type` token changes the
+   number of declarations of the damaged region k .. k2-1 resp. k .. k2'-1 and nothing else); not needed: validity of
+   the original.
+   Conclusion [C05_contained_at]: declaration k of the original is the Type/Procedure declaration whose keyword is
+   token j, it starts at o in both parses; the declarations in front are identical; the declarations from tq on (k2
+   resp. k2') are the same subtrees, offsets moved by the length difference; the syntax diagnostics are
+   before ++ damaged ++ after, `before` identical, `after` moved, every diagnostic of the damaged region inside
+   [o, index of tq]; both table builds succeed and the tables are related by [table_kept] (see C05_table_contained). *)
+From Spl Require Proofs.SingleTokDamage.
+
+Definition C05_last_not_comment (l : list token) : Prop :=
+  exists t, nth_error l (length l - 1) = Some t /\ is_comment (tk t) = false.
+
+Definition C05_contained_at (pre mid mid' post : list token) (j : nat) (p p' : program) (k o k2 k2' : nat) : Prop :=
+  parse (pre ++ mid ++ post) = Done p /\ parse (pre ++ mid' ++ post) = Done p' /\
+  (exists g, nth_error (pg_decls p) k = Some (g, o) /\ is_kw_decl g = true) /\
+  sig_at (pre ++ mid ++ post) o = j /\ Boundary p' k o /\
+  Boundary p k2 (length pre + length mid) /\ Boundary p' k2' (length pre + length mid') /\ k < k2 /\ k < k2' /\
+  firstn k (pg_decls p) = firstn k (pg_decls p') /\
+  shift_offs (length mid') (skipn k2 (pg_decls p)) = shift_offs (length mid) (skipn k2' (pg_decls p')) /\
+  i_e (pg_info p) + length mid' = i_e (pg_info p') + length mid /\
+  (exists before damaged damaged' after after',
+    tree_errors p = before ++ damaged ++ after /\
+    tree_errors p' = before ++ damaged' ++ after' /\
+    shift_es (length mid') after = shift_es (length mid) after' /\
+    before = decl_errors (firstn k (pg_decls p)) /\
+    damaged = decl_errors (firstn (k2 - k) (skipn k (pg_decls p))) /\
+    damaged' = decl_errors (firstn (k2' - k) (skipn k (pg_decls p'))) /\
+    after = decl_errors (skipn k2 (pg_decls p)) /\ after' = decl_errors (skipn k2' (pg_decls p')) /\
+    (forall e, In e before -> C05_inside 0 o e) /\
+    (forall e, In e damaged -> C05_inside o (length pre + length mid) e) /\
+    (forall e, In e damaged' -> C05_inside o (length pre + length mid') e) /\
+    (forall e, In e after -> C05_inside (length pre + length mid) (i_e (pg_info p)) e) /\
+    (forall e, In e after' -> C05_inside (length pre + length mid') (i_e (pg_info p')) e)) /\
+  (exists q T q' T',
+    build_res p = ROk (q, T) /\ build_res p' = ROk (q', T') /\
+    table_kept (length mid) (length mid') (pg_decls p) (pg_decls p') k k2 k2' T T').
+
+Definition C05_contained (pre mid mid' post : list token) (j : nat) : Prop :=
+  exists p p' k o k2 k2', C05_contained_at pre mid mid' post j p p' k o k2 k2'.
+
+(* the side condition, token by token *)
+Theorem C05_last_not_comment_snoc : forall l t, C05_last_not_comment (l ++ [t]) <-> is_comment (tk t) = false.
+Proof. exact SingleTokDamage.last_nc_snoc. Qed.
+Print Assumptions C05_last_not_comment_snoc.
+
+Theorem C05_last_not_comment_app : forall l r, r <> [] -> (C05_last_not_comment (l ++ r) <-> C05_last_not_comment r).
+Proof. exact SingleTokDamage.last_nc_app. Qed.
+Print Assumptions C05_last_not_comment_app.
+
+(* the general form: anything between a declaration keyword and the next proc / type / Eof token is replaced *)
+Theorem C05_damaged_declaration : forall pre mid mid' post post' j tj tq,
+  EofLast (pre ++ mid ++ post) -> EofLast (pre ++ mid' ++ post) ->
+  nth_error pre j = Some tj -> is_declkw (tk tj) = true ->
+  post = tq :: post' -> sync_full (tk tq) = true ->
+  C05_last_not_comment (pre ++ mid) -> C05_last_not_comment (pre ++ mid') ->
+  C05_contained pre mid mid' post j.
+Proof. exact SingleTokDamage.damage_contained. Qed.
+Print Assumptions C05_damaged_declaration.
+
+Theorem C05_token_deleted : forall pre rest post post' j tj tq t,
+  nth_error pre j = Some tj -> is_declkw (tk tj) = true ->
+  post = tq :: post' -> sync_full (tk tq) = true ->
+  EofLast (pre ++ (t :: rest) ++ post) ->
+  C05_last_not_comment (pre ++ t :: rest) -> C05_last_not_comment (pre ++ rest) ->
+  C05_contained pre (t :: rest) rest post j.
+Proof.
+  intros pre rest post post' j tj tq t Hj Hkj Hpost Hsq.
+  exact (SingleTokDamage.token_deleted pre rest post post' j tj tq Hj Hkj Hpost Hsq t).
+Qed.
+Print Assumptions C05_token_deleted.
+
+Theorem C05_token_inserted : forall pre rest post post' j tj tq t',
+  nth_error pre j = Some tj -> is_declkw (tk tj) = true ->
+  post = tq :: post' -> sync_full (tk tq) = true ->
+  EofLast (pre ++ rest ++ post) -> tk t' <> Eof ->
+  C05_last_not_comment (pre ++ rest) -> C05_last_not_comment (pre ++ t' :: rest) ->
+  C05_contained pre rest (t' :: rest) post j.
+Proof.
+  intros pre rest post post' j tj tq t' Hj Hkj Hpost Hsq.
+  exact (SingleTokDamage.token_inserted pre rest post post' j tj tq Hj Hkj Hpost Hsq t').
+Qed.
+Print Assumptions C05_token_inserted.
+
+Theorem C05_token_replaced : forall pre rest post post' j tj tq t t',
+  nth_error pre j = Some tj -> is_declkw (tk tj) = true ->
+  post = tq :: post' -> sync_full (tk tq) = true ->
+  EofLast (pre ++ (t :: rest) ++ post) -> tk t' <> Eof ->
+  C05_last_not_comment (pre ++ t :: rest) -> C05_last_not_comment (pre ++ t' :: rest) ->
+  C05_contained pre (t :: rest) (t' :: rest) post j.
+Proof.
+  intros pre rest post post' j tj tq t t' Hj Hkj Hpost Hsq.
+  exact (SingleTokDamage.token_replaced pre rest post post' j tj tq Hj Hkj Hpost Hsq t t').
+Qed.
+Print Assumptions C05_token_replaced.
+
+(* rest = []: the damage concerns the last token of the declaration (tq follows directly) *)
+Theorem C05_token_deleted_last : forall pre post post' j tj tq t,
+  nth_error pre j = Some tj -> is_declkw (tk tj) = true ->
+  post = tq :: post' -> sync_full (tk tq) = true ->
+  EofLast (pre ++ [t] ++ post) ->
+  is_comment (tk t) = false -> C05_last_not_comment pre ->
+  C05_contained pre [t] [] post j.
+Proof.
+  intros pre post post' j tj tq t Hj Hkj Hpost Hsq.
+  exact (SingleTokDamage.token_deleted_last pre post post' j tj tq Hj Hkj Hpost Hsq t).
+Qed.
+Print Assumptions C05_token_deleted_last.
+
+Theorem C05_token_inserted_last : forall pre post post' j tj tq t',
+  nth_error pre j = Some tj -> is_declkw (tk tj) = true ->
+  post = tq :: post' -> sync_full (tk tq) = true ->
+  EofLast (pre ++ post) -> tk t' <> Eof ->
+  C05_last_not_comment pre -> is_comment (tk t') = false ->
+  C05_contained pre [] [t'] post j.
+Proof.
+  intros pre post post' j tj tq t' Hj Hkj Hpost Hsq.
+  exact (SingleTokDamage.token_inserted_last pre post post' j tj tq Hj Hkj Hpost Hsq t').
+Qed.
+Print Assumptions C05_token_inserted_last.
+
+Theorem C05_token_inserted_before_last : forall pre post post' j tj tq t t',
+  nth_error pre j = Some tj -> is_declkw (tk tj) = true ->
+  post = tq :: post' -> sync_full (tk tq) = true ->
+  EofLast (pre ++ [t] ++ post) -> tk t' <> Eof ->
+  is_comment (tk t) = false ->
+  C05_contained pre [t] [t'; t] post j.
+Proof.
+  intros pre post post' j tj tq t t' Hj Hkj Hpost Hsq.
+  exact (SingleTokDamage.token_inserted_before_last pre post post' j tj tq Hj Hkj Hpost Hsq t t').
+Qed.
+Print Assumptions C05_token_inserted_before_last.
+
+Theorem C05_token_replaced_last : forall pre post post' j tj tq t t',
+  nth_error pre j = Some tj -> is_declkw (tk tj) = true ->
+  post = tq :: post' -> sync_full (tk tq) = true ->
+  EofLast (pre ++ [t] ++ post) -> tk t' <> Eof ->
+  is_comment (tk t) = false -> is_comment (tk t') = false ->
+  C05_contained pre [t] [t'] post j.
+Proof.
+  intros pre post post' j tj tq t t' Hj Hkj Hpost Hsq.
+  exact (SingleTokDamage.token_replaced_last pre post post' j tj tq Hj Hkj Hpost Hsq t t').
+Qed.
+Print Assumptions C05_token_replaced_last.
+
+(* non-vacuity: the three-declaration document
+     type x = x ; proc x ( ) { x := x ; } type x = x ; Eof        (declarations at 0, 5, 15; end 20)
+   [SingleTokDamage.epre] = tokens 0..11, [tok idx] = token 12 (the right-hand side `x`), [erest] = `; }`,
+   [epost] = `type x = x ; Eof`.  First conjunct: the theorem applies (all hypotheses hold); second conjunct: the
+   witnesses k, o, k2, k2'. *)
+(* token 12 deleted (`x := ; }`): k = 1, o = 5, k2 = k2' = 2 *)
+Example C05_token_deleted_example :
+  let pre := SingleTokDamage.epre in let t := SingleTokDamage.tok idx in
+  let rest := SingleTokDamage.erest in let post := SingleTokDamage.epost in
+  C05_contained pre (t :: rest) rest post 5 /\
+  C05_contained_at pre (t :: rest) rest post 5 (prog_of (pre ++ (t :: rest) ++ post)) (prog_of (pre ++ rest ++ post)) 1 5 2 2.
+Proof. exact SingleTokDamage.ex_deleted. Qed.
+Print Assumptions C05_token_deleted_example.
+
+(* `}` inserted behind token 12 (`x := x } ; }`): the procedure ends early and `; }` becomes an Error declaration of
+   the damaged region: k = 1, o = 5, k2 = 2, k2' = 3 *)
+Example C05_token_inserted_example :
+  let pre := SingleTokDamage.epre ++ [SingleTokDamage.tok idx] in let t' := SingleTokDamage.tok RCurly in
+  let rest := SingleTokDamage.erest in let post := SingleTokDamage.epost in
+  C05_contained pre rest (t' :: rest) post 5 /\
+  C05_contained_at pre rest (t' :: rest) post 5 (prog_of (pre ++ rest ++ post)) (prog_of (pre ++ (t' :: rest) ++ post)) 1 5 2 3.
+Proof. exact SingleTokDamage.ex_inserted. Qed.
+Print Assumptions C05_token_inserted_example.
+
+(* token 12 replaced by `)` (`x := ) ; }`): k = 1, o = 5, k2 = k2' = 2 *)
+Example C05_token_replaced_example :
+  let pre := SingleTokDamage.epre in let t := SingleTokDamage.tok idx in let t' := SingleTokDamage.tok RParen in
+  let rest := SingleTokDamage.erest in let post := SingleTokDamage.epost in
+  C05_contained pre (t :: rest) (t' :: rest) post 5 /\
+  C05_contained_at pre (t :: rest) (t' :: rest) post 5
+    (prog_of (pre ++ (t :: rest) ++ post)) (prog_of (pre ++ (t' :: rest) ++ post)) 1 5 2 2.
+Proof. exact SingleTokDamage.ex_replaced. Qed.
+Print Assumptions C05_token_replaced_example.
+
+(* the LAST declaration is damaged (tq = Eof): token 17 (`=`) of the same document deleted (`type x x ;`):
+   k = 2, o = 15, k2 = k2' = 3 = the number of declarations *)
+Example C05_token_deleted_in_last_declaration_example :
+  let pre := SingleTokDamage.epre_last in let t := SingleTokDamage.tok EqT in
+  let rest := SingleTokDamage.erest_last in let post := SingleTokDamage.epost_last in
+  pre ++ (t :: rest) ++ post = SingleTokDamage.epre ++ (SingleTokDamage.tok idx :: SingleTokDamage.erest) ++ SingleTokDamage.epost /\
+  C05_contained pre (t :: rest) rest post 15 /\
+  C05_contained_at pre (t :: rest) rest post 15 (prog_of (pre ++ (t :: rest) ++ post)) (prog_of (pre ++ rest ++ post)) 2 15 3 3.
+Proof. split; [exact SingleTokDamage.e_same | exact SingleTokDamage.ex_deleted_in_last]. Qed.
+Print Assumptions C05_token_deleted_in_last_declaration_example.
+
+(* the diagnostics of the original and the four damaged documents (token ranges): each inside [o, index of tq] =
+   [5, 14], [5, 16], [5, 15] resp. [15, 19] *)
+Example C05_token_examples_diagnostics :
+  let pre := SingleTokDamage.epre in let t := SingleTokDamage.tok idx in
+  let rest := SingleTokDamage.erest in let post := SingleTokDamage.epost in
+  map (fun e => (e_s e, e_e e)) (tree_errors (prog_of (pre ++ (t :: rest) ++ post))) = [] /\
+  map (fun e => (e_s e, e_e e)) (tree_errors (prog_of (pre ++ rest ++ post))) = [(11, 11)] /\
+  map (fun e => (e_s e, e_e e)) (tree_errors (prog_of ((pre ++ [t]) ++ (SingleTokDamage.tok RCurly :: rest) ++ post))) = [(12, 12); (14, 16)] /\
+  map (fun e => (e_s e, e_e e)) (tree_errors (prog_of (pre ++ (SingleTokDamage.tok RParen :: rest) ++ post))) = [(11, 11); (11, 11); (12, 13)] /\
+  map (fun e => (e_s e, e_e e))
+    (tree_errors (prog_of (SingleTokDamage.epre_last ++ SingleTokDamage.erest_last ++ SingleTokDamage.epost_last))) = [(16, 16)].
+Proof. exact SingleTokDamage.ex_diagnostics. Qed.
